@@ -318,7 +318,7 @@ def obligations(pid, tier):
     lists = [dict(frame=f, ego_q=q, n=n, kinds=k) for f, q in frames[:2] for n in ([2] if quick else [2, 3])
              for k in [("xy",), ("dist",), ("conf",)] + ([] if quick else [("xy", "conf")])
              if not (quick and f == "map" and k == ("dist",))  # map-frame ring bounds: predicate + thorough tier
-             and not (n == 3 and (f != "base_link" or k not in (("xy",), ("conf",))))]  # three objects: run time
+             and not (n == 3 and (f != "base_link" or k not in (("xy",), ("conf",), ("dist",))))]  # three objects: run time
     resf = [dict(frame=f, ego_q=q, kinds=k, has_gt=h) for f, q in frames[:2]
             for k in [("xy",), ("dist", "conf"), ("points", "uuid"), ("attr", "conf")] for h in (True, False)]
     return [
